@@ -43,6 +43,10 @@ class Gen:
 
     def literal(self):
         r = self.rng
+        if r.random() < 0.15:
+            # container *subclasses* holding plain values: plain Python passes them through unchanged
+            self.note('container-subclass-literal')
+            return r.choice(['Pt(%d, %d)' % (r.randint(0, 5), r.randint(0, 5)), 'OD(a=%d)' % r.randint(0, 5), 'LL([%d, %d])' % (r.randint(0, 5), r.randint(0, 5))])
         return r.choice(['%d' % r.randint(0, 9), repr(r.choice(['a', 'bc', ''])), '[%d, %d]' % (r.randint(0, 5), r.randint(0, 5)), 'None', '(%d,)' % r.randint(0, 3)])
 
     def arg(self, depth=2):
@@ -59,6 +63,11 @@ class Gen:
             self.note('NoHash')
             return 'NoHash(%s)' % self.literal()
         c = r.random()
+        if depth > 1 and c < 0.07:
+            # a task only at nesting depth >= 2 (the outer container holds no task directly)
+            self.note('container:deep')
+            inner = self.arg(0)
+            return r.choice(['[[%s, 1], 2]', '([%s],)', '[(%s, 0)]', "[{'k': %s}]", "{'k': [[%s]]}", '((%s,), [3])', '[[[%s]]]', "[('a', [%s, None])]"]) % inner
         if depth > 0 and c < 0.22:
             kind = r.choice(['list', 'tuple', 'dict', 'nested'])
             self.note('container:' + kind)
@@ -97,6 +106,8 @@ class Gen:
                 b = r.choice([None, 1, 3, 5, -1, len(val) + 1])
                 st = r.choice([None, None, 1, 2, -1, -2])
                 self.note('mapped-slice')
+                if st is not None and st < 0:
+                    self.note('mapped-slice-neg')
                 sl = '%s:%s%s' % ('' if a is None else a, '' if b is None else b, '' if st is None else ':%d' % st)
                 return '%s[%s]' % (name, sl)
             self.note('mapped-whole')
@@ -142,7 +153,7 @@ class Gen:
         n = len(self.vars)
         v = 'v%d' % n
         kinds = self.kinds or ['mk', 'mk', 'const', 'idx', 'pair', 'add', 'add', 'use', 'use', 'use', 'mkdict', 'inc', 'jmap', 'jmap1', 'mapreduce',
-                               'jreduce', 'currymap', 'identity', 'iteratetask', 'pair2', 'arr', 'asq']
+                               'jreduce', 'currymap', 'identity', 'iteratetask', 'pair2', 'arr', 'asq', 'nil']
         if n < 2:
             kinds = ['mk', 'const', 'mkdict']
         kind = r.choice(kinds)
@@ -157,6 +168,9 @@ class Gen:
             self.emit([v], 'pair(%d, %s, %s)' % (k, self.arg(), self.arg()), 'task')
         elif kind == 'add':
             self.emit([v], 'add(%d, %s, %s)' % (k, self.arg(), self.arg()), 'task')
+        elif kind == 'nil':
+            self.note('none-result')
+            self.emit([v], 'nil(%d)' % k, 'task')
         elif kind == 'arr':
             self.note('numpy-result')
             self.emit([v], 'arr(%d, %d)' % (k, r.randint(1, 4)), 'task')
@@ -224,7 +238,7 @@ class Program:
         return {v: ns[v] for v in self.varnames}
 
 
-RARE = ['task-valued-index', 'mapped-slice', 'mapped-item', 'mapped-whole', 'tasklet-of-tasklet', 'tasklist-item', 'tasklist-whole', 'iteratetask',
+RARE = ['task-valued-index', 'mapped-slice', 'mapped-slice-neg', 'container:deep', 'mapped-item', 'mapped-whole', 'tasklet-of-tasklet', 'tasklist-item', 'tasklist-whole', 'iteratetask',
         'return_tuple', 'map-over-tasks', 'container:nested', 'dict-key', 'slice', 'keyword', 'container:dict', 'container:tuple']
 
 
@@ -235,3 +249,77 @@ def generate(rng, ntasks=8, kinds=None, want=None):
         if want is None or p.embed.get(want):
             return p
     return p
+
+
+# ------------------------------------------------------------------------------------------------ single-link programs
+# every way a consumer can be linked to a producer, as the ONLY link between them: a dependency that is lost for one embedding
+# kind (not reported, not waited for, not invalidated, not resolved) cannot hide behind a second link
+LINKS = [
+    ('direct', 'a'), ('item', 'a[1]'), ('neg-item', 'a[-1]'), ('slice', 'a[1:3]'), ('task-index', 'a[i]'), ('item-of-item', 'p[0][1]'),
+    ('task-index-inner', 'q[i][0]'), ('dict-key', 'd["l"]'), ('dict-key-item', 'd["l"][0]'),
+    ('list', '[a, 1]'), ('tuple', '(a,)'), ('dict-value', "{'k': a}"), ('deep-list', '[[a, 1], 2]'), ('deep-tuple', '([a],)'), ('deep-mixed', "[{'k': (a, 0)}]"),
+    ('deep-tasklet', '[[a[1]], 0]'), ('keyword', None),
+    ('mapped-whole', 'm'), ('mapped-item', 'm[2]'), ('mapped-last', 'm[-1]'), ('mapped-slice', 'm[1:5]'), ('mapped-slice-step', 'm[::2]'),
+    ('mapped-reversed', 'm[::-1]'), ('mapped-neg-stride', 'm[5:1:-2]'), ('mapped-neg-to-zero', 'm[4::-1]'), ('mapped-slice-of-slice', 'm[1:6][::-1]'),
+    ('mapped-slice-item', 'm[1:6][2]'), ('mapped-in-list', '[m[::-1], 0]'), ('map1-item', 'm1[1]'), ('map1-whole', 'm1'),
+    ('currymap-item', 'cm[1]'), ('mapreduce', 'mr'), ('reduce', 'rd'), ('identity', 'identity(a)'), ('identity-list', 'identity([a, 2])'),
+    ('iteratetask', 'it0'), ('return-tuple', 'rt1'), ('customhash-plain', None), ('numpy', 'ar'), ('none', 'nl'),
+    ('duplicate-producer', None), ('duplicate-consumer', None),
+]
+
+SINGLE_PRELUDE = """a = mk(1, 5)
+i = idx(31, 3)
+p = pair(3, a, 7)
+q = pair(4, [a, 1], [2, 3], )
+d = mkdict(5, a)
+m = jmap(dbl, list(range(1, 8)), map_step=3)
+m1 = jmap(dbl, list(range(1, 4)), map_step=1)
+cm = currymap(mul, [(j, j + 2) for j in range(3)], map_step=2)
+mr = mapreduce(cat, wrap, list(range(1, 8)), map_step=2, reduce_step=3)
+rd = jreduce(cat, [(10 + j,) for j in range(5)], reduce_step=2)
+it0, it1 = iteratetask(a, 2)
+rt0, rt1, rt2 = pair2(6, a, 1)
+ar = arr(8, 3)
+nl = nil(9)
+"""
+
+
+class FixedProgram:
+    def __init__(self, text, embed):
+        self.text, self.embed = text, embed
+
+
+def single_link_programs():
+    out = []
+    for kind, expr in LINKS:
+        if kind == 'keyword':
+            line = 'c = use(20, 0, kw=a)\ne = inc(21, c)\n'
+        elif kind == 'duplicate-producer':
+            # the same invocation written twice: two Task objects, one identifier; the consumer hangs on the second object
+            line = 'a = mk(1, 5)\na2 = mk(1, 5)\nc = use(20, a2[1])\ne = inc(21, c)\n'
+        elif kind == 'duplicate-consumer':
+            line = 'a = mk(1, 5)\nc0 = use(20, a)\nc = use(20, a)\ne = inc(21, c)\n'
+        elif kind == 'customhash-plain':
+            line = 'c = use(20, CustomHash([1, 2], hash_one), other=NoHash(3))\ne = inc(21, c)\n'
+        else:
+            line = 'c = use(20, %s)\ne = inc(21, c)\n' % expr
+        # only the producers the link (transitively) mentions, plus one unrelated task
+        import re as _re
+        plines = SINGLE_PRELUDE.strip().split('\n')
+        needed = set(_re.findall(r'[A-Za-z_][A-Za-z_0-9]*', line))
+        keep = [False] * len(plines)
+        changed = True
+        while changed:
+            changed = False
+            for j, pl in enumerate(plines):
+                lhs, rhs = pl.split(' = ', 1)
+                names = {x.strip() for x in lhs.split(',')}
+                if not keep[j] and names & needed:
+                    keep[j] = True
+                    needed |= set(_re.findall(r'[A-Za-z_][A-Za-z_0-9]*', rhs))
+                    changed = True
+        if kind.startswith('duplicate'):
+            keep = [False] * len(plines)
+        prelude = ''.join(pl + '\n' for j, pl in enumerate(plines) if keep[j]) + 'z = const(30)\n'
+        out.append(FixedProgram(HEADER + prelude + line, {'single-link:' + kind: 1}))
+    return out
